@@ -452,7 +452,12 @@ func c10Random(r *Rng) C10Case {
 			// a well-formed multipart upload (content type and body agree)
 			q.Header["Content-Type"] = []string{"multipart/form-data; boundary=b"}
 			q.Body = Pick(r, []string{"--b\r\nContent-Disposition: form-data; name=\"a\"\r\n\r\n1\r\n--b--\r\n",
-				"--b\r\nContent-Disposition: form-data; name=\"a\"\r\n\r\nx\r\n--b\r\nContent-Disposition: form-data; name=\"k\"\r\n\r\ny\r\n--b--\r\n"})
+				"--b\r\nContent-Disposition: form-data; name=\"a\"\r\n\r\nx\r\n--b\r\nContent-Disposition: form-data; name=\"k\"\r\n\r\ny\r\n--b--\r\n",
+				// parts with a content type of their own: decoded by the decoder registered for it, under the property's schema
+				"--b\r\nContent-Disposition: form-data; name=\"a\"\r\nContent-Type: application/x-www-form-urlencoded\r\n\r\nx=1&y=2\r\n--b--\r\n",
+				"--b\r\nContent-Disposition: form-data; name=\"a\"\r\nContent-Type: multipart/form-data; boundary=c\r\n\r\n--c\r\nContent-Disposition: form-data; name=\"x\"\r\n\r\n1\r\n--c--\r\n\r\n--b--\r\n",
+				"--b\r\nContent-Disposition: form-data; name=\"a\"\r\nContent-Type: application/json\r\n\r\n{\"x\":1}\r\n--b\r\nContent-Disposition: form-data; name=\"f\"; filename=\"f.bin\"\r\nContent-Type: application/octet-stream\r\n\r\n\x00\x01\r\n--b--\r\n",
+				"--b\r\nContent-Disposition: form-data; name=\"a\"\r\nContent-Type: text/csv\r\n\r\n1,2\r\n--b\r\nContent-Disposition: form-data; name=\"a\"\r\nContent-Type: application/x-yaml\r\n\r\nx: 1\r\n--b--\r\n"})
 		}
 		if ct := Pick(r, cts); ct != "" {
 			q.RHeader["Content-Type"] = []string{ct}
@@ -540,6 +545,9 @@ func init() {
 				meta.Histogram["panic:"+p]++
 				meta.GoViolation = append(meta.GoViolation, map[string]any{"signature": p, "cases": []any{c}, "go_observation": o, "judgement": "panic / fatal error: " + p})
 			}
+		}
+		if replay == "" {
+			validationHandlerOracles(meta)
 		}
 		meta.NCases = len(cases)
 		meta.Files, meta.Offsets = writeCasesInterned(outDir, "cases", "From KV Require Import Model.Base Exec.C10Exec.", "N", "judge_C10", nil, 1000)
